@@ -134,6 +134,9 @@ impl ConfigNode {
     }
 }
 
+/// The maximum depth to which sections (and included files) may be nested.
+const MAX_DEPTH: usize = 256;
+
 /// Parses an entire configuration string.
 pub fn parse_conf(conf: &str, filename: &str) -> Result<ConfigNode, ConfigError> {
     let mut lines = TracebackIterator::from(conf.lines());
@@ -153,7 +156,7 @@ pub fn parse_conf(conf: &str, filename: &str) -> Result<ConfigNode, ConfigError>
     }
 
     // Parses the main section
-    let server = parse_section("server", &mut lines, filename)?;
+    let server = parse_section("server", &mut lines, filename, 1)?;
 
     // Only comments and blank lines may follow the end of the `server` section
     while let Some(line) = lines.next() {
@@ -174,7 +177,17 @@ fn parse_section(
     name: &str,
     lines: &mut TracebackIterator<Lines>,
     filename: &str,
+    depth: usize,
 ) -> Result<ConfigNode, ConfigError> {
+    // Nesting is bounded so that a malformed (or self-including) file cannot exhaust the stack
+    if depth > MAX_DEPTH {
+        return Err(ConfigError::new(
+            "Sections are nested too deeply",
+            filename,
+            lines.current_line(),
+        ));
+    }
+
     let mut values: Vec<ConfigNode> = Vec::new();
 
     // While this section has not ended
@@ -191,7 +204,7 @@ fn parse_section(
                 if section_name.starts_with("route ") && section_name != "route {" {
                     // If the section is a route section, parse it as such
                     let route_name = section_name.splitn(2, ' ').last().unwrap().trim();
-                    let section = parse_section(route_name, lines, filename)?;
+                    let section = parse_section(route_name, lines, filename, depth + 1)?;
                     if let ConfigNode::Section(route_name, inner_values) = section {
                         values.push(ConfigNode::Route(route_name, inner_values));
                     }
@@ -213,13 +226,13 @@ fn parse_section(
                         }
                     };
 
-                    let section = parse_section(&host_name, lines, filename)?;
+                    let section = parse_section(&host_name, lines, filename, depth + 1)?;
                     if let ConfigNode::Section(host_name, inner_values) = section {
                         values.push(ConfigNode::Host(host_name, inner_values));
                     }
                 } else {
                     // If the section is just a regular section, parse it in the normal way
-                    values.push(parse_section(section_name, lines, filename)?);
+                    values.push(parse_section(section_name, lines, filename, depth + 1)?);
                 }
             } else if line == "}" {
                 // If the line indicates the end of this section, return the parsed section
@@ -255,8 +268,12 @@ fn parse_section(
                         ));
                     }
                 } else if wildcard_match("\"*\"", value) {
-                    let include_result =
-                        include(&value[1..value.len() - 1], filename, lines.current_line());
+                    let include_result = include(
+                        &value[1..value.len() - 1],
+                        filename,
+                        lines.current_line(),
+                        depth + 1,
+                    );
                     if let Ok(included_nodes) = include_result {
                         values.extend(included_nodes);
                     } else {
@@ -286,14 +303,19 @@ fn parse_section(
 
 /// Attempts to include the configuration file at the specified path into the tree,
 ///   returning a `Vec` of `ConfigNode`s. If unsuccessful, returns a descriptive error.
-fn include(path: &str, containing_file: &str, line: u64) -> Result<Vec<ConfigNode>, ConfigError> {
+fn include(
+    path: &str,
+    containing_file: &str,
+    line: u64,
+    depth: usize,
+) -> Result<Vec<ConfigNode>, ConfigError> {
     if let Ok(mut file) = File::open(path) {
         let mut buf = String::new();
         if file.read_to_string(&mut buf).is_ok() {
             buf.push_str("\n}");
 
             let mut iter = TracebackIterator::from(buf.lines());
-            let parsed_node = parse_section("temp_included_section", &mut iter, path)?;
+            let parsed_node = parse_section("temp_included_section", &mut iter, path, depth)?;
 
             // The `}` appended above must be what ended the section, otherwise the file
             // closed a section which it never opened and the rest of it would be lost
